@@ -2,6 +2,7 @@ package kvql
 
 import (
 	"errors"
+	"strings"
 )
 
 const MaxNestLevel = 1e5
@@ -397,7 +398,7 @@ func (p *Parser) parseSelect() (*SelectStmt, error) {
 		if err != nil {
 			return nil, err
 		}
-		fieldName := field.String()
+		fieldName := defaultFieldName(field)
 		if p.tok != nil {
 			if p.tok.Tp == AS {
 				p.next()
@@ -493,6 +494,13 @@ func (p *Parser) parseLimit() (*LimitStmt, error) {
 	return ret, nil
 }
 
+// defaultFieldName is the name of a select field without `as`: the text of
+// its expression, with the names in it written bare. A name inside back
+// quotes cannot carry back quotes, `(N + 1)` must stay a possible spelling.
+func defaultFieldName(field Expression) string {
+	return strings.ReplaceAll(field.String(), "`", "")
+}
+
 func (p *Parser) findFieldInSelect(selStmt *SelectStmt, fieldName string, pos int) (Expression, error) {
 	foundIdx := -1
 	for i, fname := range selStmt.FieldNames {
@@ -545,7 +553,7 @@ func (p *Parser) parseGroupBy(selStmt *SelectStmt, ctx *CheckCtx) (*GroupByStmt,
 		case *FieldExpr:
 			fields = append(fields, GroupByField{field.String(), field})
 		case *FunctionCallExpr:
-			fexpr, err := p.findFieldInSelect(selStmt, field.String(), e.GetPos())
+			fexpr, err := p.findFieldInSelect(selStmt, defaultFieldName(field), e.GetPos())
 			if err != nil {
 				return nil, err
 			}
@@ -556,13 +564,13 @@ func (p *Parser) parseGroupBy(selStmt *SelectStmt, ctx *CheckCtx) (*GroupByStmt,
 			if _, have := GetAggrFunctionByName(fname); have {
 				return nil, NewSyntaxError(fexpr.GetPos(), "Cannot find aggregate function: %s", fname)
 			}
-			fields = append(fields, GroupByField{field.String(), fexpr})
+			fields = append(fields, GroupByField{defaultFieldName(field), fexpr})
 		default:
-			fexpr, err := p.findFieldInSelect(selStmt, field.String(), e.GetPos())
+			fexpr, err := p.findFieldInSelect(selStmt, defaultFieldName(field), e.GetPos())
 			if err != nil {
 				return nil, err
 			}
-			fields = append(fields, GroupByField{field.String(), fexpr})
+			fields = append(fields, GroupByField{defaultFieldName(field), fexpr})
 		}
 		if p.tok != nil {
 			switch p.tok.Tp {
@@ -615,7 +623,7 @@ func (p *Parser) parseOrderBy(selStmt *SelectStmt) (*OrderStmt, error) {
 		case *NameExpr:
 			fieldName = e.Data
 		default:
-			fieldName = field.String()
+			fieldName = defaultFieldName(field)
 		}
 		fexpr, err := p.findFieldInSelect(selStmt, fieldName, field.GetPos())
 		if err != nil {
